@@ -61,7 +61,16 @@ def eval_tls(case, rng):
     fail = e2e.run_failed(res)
     if fail:
         return dict(out, v="inconclusive" if fail.startswith("INCONCLUSIVE") else "violated", msg=fail, files=files)
-    inits = [e for e in monitors.parse_events(res.events) if e["ev"] == "init"]
+    evs_all = monitors.parse_events(res.events)
+    inits = [e for e in evs_all if e["ev"] == "init"]
+    if any(e["ev"] == "monitor-unavailable" for e in evs_all) or (inits and not any(k in inits[-1] for k in ("client_key", "client_application_key"))):
+        # the installation point moved (refactoring): fall back to the indirect observation - records decrypt to the sent plaintext only with the RFC keys
+        from vlib import outparse
+        m2 = e2e.check_tls_streams(outparse.Analysis(res.out), conn, ep)
+        out["tags"].append("indirect")
+        if m2:
+            return dict(out, v="inconclusive", msg="key monitor unavailable and the export is not exact (C01 decides): " + m2[0][:200], nontrivial=False)
+        return dict(out, v="held", nontrivial=True, mon={"tls.keys_observed_indirectly": 1})
     if not inits:
         return dict(out, v="inconclusive", msg="Decryptor.__init__ was never reached: the key-installation monitor observed nothing", nontrivial=False)
     e = inits[-1]
@@ -105,7 +114,16 @@ def eval_quic(case, rng):
     fail = e2e.run_failed(res)
     if fail:
         return dict(out, v="inconclusive" if fail.startswith("INCONCLUSIVE") else "violated", msg=fail, files=files)
-    evs = [e for e in monitors.parse_events(res.events) if e["ev"] == "qkeys"]
+    evs_all = monitors.parse_events(res.events)
+    evs = [e for e in evs_all if e["ev"] == "qkeys"]
+    if any(e["ev"] == "monitor-unavailable" for e in evs_all) or (evs and not any(e["keys"] for e in evs)):
+        from vlib import outparse
+        from checks.c02 import check_quic_output
+        m2, _ = check_quic_output(outparse.Analysis(res.out), qc, ep)
+        out["tags"].append("indirect")
+        if m2:
+            return dict(out, v="inconclusive", msg="key monitor unavailable and the export is not exact (C02 decides): " + m2[0][:200], nontrivial=False)
+        return dict(out, v="held", nontrivial=bool(qc.expect), mon={"quic.keys_observed_indirectly": 1})
     if not evs:
         return dict(out, v="inconclusive", msg="no QUIC key-installation event observed", nontrivial=False)
     msgs = []
